@@ -338,7 +338,7 @@ def run(ctx):
     from vf.draw import draw_stratified
     from vf.runner import load_regress
     cases = load_regress(ctx.prop, name) + gen_cfg.alternate_histories(
-        draw_stratified(strata(), 20 if ctx.quick else 300, ctx.seed, wrap=with_order),
+        draw_stratified(strata(), 32 if ctx.quick else 300, ctx.seed, wrap=with_order),
         ('edited', 'origin', 'semantics', 'plain'))
     for c in cases:
         ctx.record(c, nontrivial(c), labels(c))
